@@ -14,7 +14,6 @@ package arvados
 // Part "race" (thorough tier): the same scenario bodies free-running under the race detector.
 
 import (
-	"encoding/json"
 	"fmt"
 	"os"
 	"strings"
@@ -24,107 +23,11 @@ import (
 	"git.arvados.org/arvados.git/lib/verifshim/vsched"
 )
 
-func c13w(h int, d string) c13op        { return c13op{K: "w", H: h, D: d} }
-func c13seek(h int, n int64) c13op      { return c13op{K: "seek", H: h, N: n} }
-func c13trunc(h int, n int64) c13op     { return c13op{K: "trunc", H: h, N: n} }
-func c13read(h int, n int64) c13op      { return c13op{K: "read", H: h, N: n} }
-func c13flush(p string, s bool) c13op   { return c13op{K: "flush", A: p, Short: s} }
-func c13rename(a, b string) c13op       { return c13op{K: "rename", A: a, B: b} }
-func c13marshal() c13op                 { return c13op{K: "marshal"} }
-func c13hs(paths ...string) []c13handle {
-	var hs []c13handle
-	for _, p := range paths {
-		hs = append(hs, c13handle{Path: p})
-	}
-	return hs
-}
-
-// Short scenarios (two clients, <= 2 operations each) get preemption bound 3 in the thorough tier.
-func c13scenarios() []c13scn {
-	return []c13scn{
-		{Name: "two-writers", Files: map[string]string{"f": "0123456"},
-			Handles: []c13handle{{Path: "f"}, {Path: "f", Off: 2}},
-			Tasks: [][]c13op{{c13w(0, "AAAA"), c13w(0, "BB")}, {c13w(1, "cccc"), c13w(1, "dd")}}},
-		{Name: "two-appenders", Throttle: 1,
-			Handles: []c13handle{{Path: "f", Append: true}, {Path: "f", Append: true}},
-			Tasks: [][]c13op{{c13w(0, "AAAA"), c13w(0, "BB")}, {c13w(1, "cc"), c13w(1, "dddd")}}},
-		{Name: "writer-truncater", Handles: c13hs("f", "f"),
-			Tasks: [][]c13op{{c13w(0, "AAAA"), c13w(0, "BBBB")}, {c13trunc(1, 2), c13trunc(1, 6)}}},
-		{Name: "writer-rename-dir", Files: map[string]string{"d/f": "0123"}, Handles: c13hs("d/f"),
-			Tasks: [][]c13op{{c13w(0, "AAAA"), c13w(0, "BB")}, {c13rename("d", "e"), c13marshal()}}},
-		{Name: "writer-flush", Throttle: 1, Handles: c13hs("f"),
-			Tasks: [][]c13op{{c13w(0, "AAAA"), c13w(0, "BB"), c13w(0, "CC")}, {c13flush("", false), c13flush("", true)}}},
-		{Name: "writer-marshal", Files: map[string]string{"f": "0123"}, Handles: c13hs("f"),
-			Tasks: [][]c13op{{c13w(0, "AAAA"), c13seek(0, 2), c13w(0, "BB")}, {c13marshal(), c13marshal()}}},
-		{Name: "two-savers", Files: map[string]string{"f": "01", "g": "23"}, Handles: c13hs("f", "g"),
-			Tasks: [][]c13op{{c13w(0, "AAAA"), c13marshal()}, {c13w(1, "bbbb"), {K: "sync"}}}},
-		{Name: "reader-overwriter", Handles: c13hs("f", "f"),
-			Tasks: [][]c13op{{c13w(0, "AAAA"), c13seek(0, 0), c13w(0, "BBBB")}, {c13read(1, 4), c13seek(1, 0), c13read(1, 4)}}},
-		{Name: "writer-remove", Files: map[string]string{"d/f": "01"}, Handles: c13hs("d/f"),
-			Tasks: [][]c13op{{c13w(0, "AAAA"), c13w(0, "BB")}, {{K: "remove", A: "d/f"}, c13marshal()}}},
-		{Name: "writer-removeall", Files: map[string]string{"d/f": "01", "d/g": "23"}, Handles: c13hs("d/f"),
-			Tasks: [][]c13op{{c13w(0, "AAAA"), c13flush("d", true)}, {{K: "removeall", A: "d"}, c13marshal()}}},
-		{Name: "shrink-grow", Handles: c13hs("f", "f"),
-			Tasks: [][]c13op{{c13w(0, "AAAA"), c13trunc(0, 2), c13trunc(0, 4)}, {c13read(1, 4), c13marshal()}}},
-		{Name: "writer-flusher-saver", Handles: c13hs("f"),
-			Tasks: [][]c13op{{c13w(0, "AAAA"), c13w(0, "BB")}, {c13flush("", true)}, {c13marshal()}}},
-		{Name: "rename-over-file", Files: map[string]string{"f": "01", "g": "23"}, Handles: c13hs("f", "g"),
-			Tasks: [][]c13op{{c13w(0, "AAAA"), c13w(1, "bbbb")}, {c13rename("f", "g"), c13marshal()}}},
-		{Name: "packed-small-files", Handles: c13hs("f", "g"),
-			Tasks: [][]c13op{{c13w(0, "AA"), c13w(0, "CC")}, {c13w(1, "bbb"), c13flush("", true), c13trunc(1, 1)}}},
-	}
-}
-
-func c13normalize(sc *c13scn) {
-	if sc.MaxBlock == 0 {
-		sc.MaxBlock = 4
-	}
-	if sc.Throttle == 0 {
-		sc.Throttle = 4
-	}
-	if sc.Files == nil {
-		sc.Files = map[string]string{}
-	}
-}
-
 type c13params struct {
 	Scenario c13scn `json:"scenario"`
 	Bound    int    `json:"bound"`
 	Faults   int    `json:"faults"`
-}
-
-type c13verdict struct {
-	class, why string
-}
-
-type c13judge struct {
-	memo   map[string]c13verdict
-	merges int64
-}
-
-func (j *c13judge) judge(sc *c13scn, ob *c13observed) c13verdict {
-	k := ob.key()
-	if v, ok := j.memo[k]; ok {
-		return v
-	}
-	_, _, st, hnode, happend := sc.initial()
-	class, why, merges := c13explain(sc.Tasks, st, hnode, happend, ob)
-	j.merges += merges
-	v := c13verdict{class, why}
-	j.memo[k] = v
-	return v
-}
-
-func c13outcome(sc *c13scn, ob *c13observed) string {
-	saves := 0
-	for t := range ob.ops {
-		for _, o := range ob.ops[t] {
-			if o.man != nil {
-				saves++
-			}
-		}
-	}
-	return fmt.Sprintf("%s: end {%s} faults=%d", sc.Name, c13treeString(ob.final2), ob.faults)
+	Delay    int    `json:"blocked_switch_cost"` // 0: preemption bounding, 1: delay bounding
 }
 
 func c13explore(r *vrep.Report, p c13params) vsched.Stats {
@@ -132,8 +35,10 @@ func c13explore(r *vrep.Report, p c13params) vsched.Stats {
 	c13normalize(&sc)
 	env := &c13env{sc: &sc}
 	judge := &c13judge{memo: map[string]c13verdict{}}
-	name := fmt.Sprintf("%s/p%d/f%d", sc.Name, p.Bound, p.Faults)
-	opts := vsched.Options{Name: name, Bound: p.Bound, Report: r, Params: p, MaxPoints: 4000}
+	name := fmt.Sprintf("%s/b%d/f%d/d%d", sc.Name, p.Bound, p.Faults, p.Delay)
+	vsched.BlockedSwitchCost = p.Delay
+	defer func() { vsched.BlockedSwitchCost = 0 }()
+	opts := vsched.Options{Name: sc.Name, Bound: p.Bound, Report: r, Params: p, MaxPoints: 4000}
 	oldMax, oldCW := maxBlockSize, concurrentWriters
 	defer func() { maxBlockSize, concurrentWriters = oldMax, oldCW }()
 	st := vsched.Explore(opts, func() { env.body(p.Faults, 0) }, func(x *vsched.Result) {
@@ -153,12 +58,14 @@ func c13explore(r *vrep.Report, p c13params) vsched.Stats {
 			return
 		}
 		env.finish()
-		for _, a := range env.keep.anomaly {
+		for _, a := range env.keep.anomalies() {
 			sig := "keep-anomaly"
 			if strings.HasPrefix(a, "buffer") {
 				sig = "buffer-changed-during-keep-write"
 			} else if strings.HasPrefix(a, "read of a block") {
 				sig = "reference-to-unwritten-block"
+			} else if strings.HasPrefix(a, "read [") {
+				sig = "segment-exceeds-its-block"
 			}
 			bad(sig, a)
 		}
@@ -178,6 +85,70 @@ func c13explore(r *vrep.Report, p c13params) vsched.Stats {
 	return st
 }
 
+// c13light: scenarios in which the filesystem starts at most one short-lived goroutine per write
+// (no Flush/MarshalManifest): classic preemption bounding (every choice at a blocking point free) is
+// affordable there.  Everywhere else MarshalManifest/Flush start 5-10 goroutines per call and free
+// choices at blocking points grow exponentially, so those runs are delay bounded.
+var c13light = map[string]bool{"two-writers": true, "two-appenders": true, "writer-truncater": true, "reader-overwriter": true}
+
+func c13plan(thorough bool) []c13params {
+	var runs []c13params
+	envInt := func(name string, def int) int {
+		if b := os.Getenv(name); b != "" {
+			fmt.Sscan(b, &def)
+		}
+		return def
+	}
+	only := os.Getenv("C13_ONLY")
+	for _, sc := range c13scenarios() {
+		if only != "" && only != sc.Name {
+			continue
+		}
+		// delay bounded: every deviation from the lowest-task-id-first schedule costs 1
+		db, fb := 2, 2 // quick: <= 2 deviations without faults, <= 2 deviations with one failing write
+		if thorough {
+			db, fb = 4, 3
+			if sc.Name == "two-files-saver" || sc.Name == "packed-small-files" {
+				db, fb = 3, 2 // three clients / five operations: one level less
+			}
+		}
+		db = envInt("C13_BOUND", db)
+		fb = envInt("C13_FBOUND", fb)
+		if envInt("C13_DELAY", 1) == 1 {
+			runs = append(runs, c13params{Scenario: sc, Bound: db, Faults: 0, Delay: 1}, c13params{Scenario: sc, Bound: fb, Faults: 1, Delay: 1})
+		}
+		// preemption bounded
+		if c13light[sc.Name] && envInt("C13_DELAY", 0) == 0 {
+			pb := 1
+			if sc.Name == "writer-truncater" || sc.Name == "reader-overwriter" {
+				pb = 2
+			}
+			if thorough {
+				pb = 3
+			}
+			pb = envInt("C13_BOUND", pb)
+			runs = append(runs, c13params{Scenario: sc, Bound: pb, Faults: 0, Delay: 0}, c13params{Scenario: sc, Bound: pb - 1, Faults: 1, Delay: 0})
+		}
+	}
+	// cheapest family first, so that a time budget cut on an overloaded machine still leaves every
+	// scenario with its basic run
+	var ordered []c13params
+	for phase := 0; phase < 3; phase++ {
+		for _, p := range runs {
+			ph := 0
+			if p.Delay == 1 && p.Faults > 0 {
+				ph = 1
+			} else if p.Delay == 0 {
+				ph = 2
+			}
+			if ph == phase {
+				ordered = append(ordered, p)
+			}
+		}
+	}
+	return ordered
+}
+
 func TestVerifC13(t *testing.T) {
 	r := vrep.New("C13", "sched")
 	defer r.Write()
@@ -188,40 +159,17 @@ func TestVerifC13(t *testing.T) {
 		c13explore(r, rp.Params)
 		return
 	}
-	thorough := vrep.Thorough()
-	only := os.Getenv("C13_ONLY")
 	var states int64
-	for _, sc := range c13scenarios() {
-		if only != "" && only != sc.Name {
+	for _, p := range c13plan(vrep.Thorough()) {
+		if p.Bound < 0 {
 			continue
 		}
-		nops := 0
-		for _, t := range sc.Tasks {
-			nops += len(t)
-		}
-		pb := 2
-		if thorough && nops <= 4 {
-			pb = 3
-		}
-		if b := os.Getenv("C13_BOUND"); b != "" {
-			fmt.Sscan(b, &pb)
-		}
-		runs := []c13params{{Scenario: sc, Bound: pb, Faults: 0}, {Scenario: sc, Bound: pb - 1, Faults: 1}}
-		if thorough {
-			runs = append(runs, c13params{Scenario: sc, Bound: 1, Faults: 2})
-		}
-		for _, p := range runs {
-			if p.Bound < 0 {
-				continue
-			}
-			st := c13explore(r, p)
-			states += st.Executions
-			if os.Getenv("C13_VERBOSE") != "" {
-				fmt.Fprintf(os.Stderr, "c13: %s bound=%d faults=%d executions=%d points=%d\n", sc.Name, p.Bound, p.Faults, st.Executions, st.Points)
-			}
+		st := c13explore(r, p)
+		states += st.Executions
+		if os.Getenv("C13_VERBOSE") != "" {
+			fmt.Fprintf(os.Stderr, "c13: %s bound=%d faults=%d delay=%d executions=%d points=%d\n", p.Scenario.Name, p.Bound, p.Faults, p.Delay, st.Executions, st.Points)
 		}
 	}
 	r.States = states
-	buf, _ := json.Marshal(map[string]interface{}{"scenarios": len(c13scenarios())})
-	r.Extra("shape", string(buf))
+	r.Extra("scenarios", len(c13scenarios()))
 }
